@@ -107,6 +107,12 @@ class LevyMeasure:
 
         if a > b:
             raise ValueError("Expected a<b when integrating the levy measure")
+        if a < 0 < b:
+            # the density is not smooth at zero (and the adaptive quadrature can miss the mass around zero altogether
+            # on a wide interval): integrate each side of zero separately
+            return self.integrate_against_xn(a, 0.0, n) + self.integrate_against_xn(
+                0.0, b, n
+            )
         return quad(lambda x: x**n * self.__call__(x), a, b)[0]
 
 
